@@ -39,7 +39,7 @@ BuildEv(s0, in, s1) ==
                   isTask == m.k = "task"
               IN base @@ [req |-> [id |-> IF isTask THEN UserId(m.task) ELSE m.id,
                                    a |-> IF m.a = 0 THEN 0 ELSE Addr(m.a),
-                                   kind |-> IF isTask THEN KindOf(m.task) ELSE m.k,
+                                   kind |-> IF isTask THEN KindOf(m.task) ELSE IF m.k = "remove" THEN "assoc_remove" ELSE m.k,
                                    mode |-> IF isTask /\ m.task.t = "cmd" THEN m.task.mode ELSE "",
                                    nobj |-> IF isTask /\ m.task.t = "cmd" THEN 1 ELSE 0,
                                    ob |-> IF isTask /\ m.task.t = "cmd" THEN m.task.ob ELSE "",
